@@ -98,8 +98,8 @@ theorem counters_monotone (c : Cfg) (ops : List Op) (op : Op) :
 
 /-- **bytes relayed client -> origin on a relaying tunnel are added, exactly, to the counter of
 that session's protocol** and to nothing else -/
-theorem up_adds_exactly (c : Cfg) (ops : List Op) (t n : Nat)
-    (h : ((after c ops).tuns.getD t default).st = .open false false) :
+theorem up_adds_exactly (c : Cfg) (ops : List Op) (t n : Nat) (oe : Bool)
+    (h : ((after c ops).tuns.getD t default).st = .open false false oe) :
     let s := after c ops
     (after c (ops ++ [.up t n])).cells = s.cells.addUp (protoOf s (s.tuns.getD t default).sess) n := by
   show (after c (ops ++ [.up t n])).cells = _
@@ -108,9 +108,10 @@ theorem up_adds_exactly (c : Cfg) (ops : List Op) (t n : Nat)
   simp only [step]
   rw [h]
 
-/-- the same for origin -> client, as long as the client is there (also after it half-closed) -/
+/-- the same for origin -> client, as long as the client is there (also after it half-closed) and
+the origin has not ended its stream -/
 theorem down_adds_exactly (c : Cfg) (ops : List Op) (t n : Nat) (ce : Bool)
-    (h : ((after c ops).tuns.getD t default).st = .open ce false) :
+    (h : ((after c ops).tuns.getD t default).st = .open ce false false) :
     let s := after c ops
     (after c (ops ++ [.down t n])).cells = s.cells.addDn (protoOf s (s.tuns.getD t default).sess) n := by
   show (after c (ops ++ [.down t n])).cells = _
@@ -122,7 +123,7 @@ theorem down_adds_exactly (c : Cfg) (ops : List Op) (t n : Nat) (ce : Bool)
 /-- data offered on a tunnel that is not relaying in that direction (closed, still connecting,
 client already ended, client vanished) counts nothing -/
 theorem no_relay_no_bytes (c : Cfg) (ops : List Op) (t n : Nat)
-    (h : ((after c ops).tuns.getD t default).st ≠ .open false false) :
+    (h : ∀ oe, ((after c ops).tuns.getD t default).st ≠ .open false false oe) :
     let a := (after c ops).cells
     let b := (after c (ops ++ [.up t n])).cells
     b.up1 = a.up1 ∧ b.up2 = a.up2 ∧ b.dn1 = a.dn1 ∧ b.dn2 = a.dn2 := by
@@ -134,6 +135,24 @@ theorem no_relay_no_bytes (c : Cfg) (ops : List Op) (t n : Nat)
   rw [run_snoc]
   simp only [step]
   exact ⟨trivial, trivial, trivial, trivial⟩
+
+/-- **an HTTP/2 tunnel survives the origin's half-close and is over once both directions have
+ended**: the socket guard is held until then and released exactly once -/
+theorem half_closed_tunnel_released_when_both_ended (c : Cfg) (ops : List Op) (t : Nat)
+    (h : ((after c ops).tuns.getD t default).st = .open false false false)
+    (hp : protoOf (after c ops) ((after c ops).tuns.getD t default).sess = .h2)
+    (ha : aliveS (after c ops) ((after c ops).tuns.getD t default).sess = true)
+    (ht : t < (after c ops).tuns.length) :
+    (after c (ops ++ [.tunClose t 's'])).cells.tcp = (after c ops).cells.tcp ∧
+    (after c (ops ++ [.tunClose t 's', .tunClose t 'g'])).cells.tcp = (after c ops).cells.tcp - 1 ∧
+    (after c (ops ++ [.tunClose t 'g', .tunClose t 's'])).cells.tcp = (after c ops).cells.tcp - 1 := by
+  unfold after at h hp ha ht ⊢
+  have := half_close_both c (run c {} ops) t h hp ha ht
+  rw [run_snoc,
+    show ops ++ [Op.tunClose t 's', .tunClose t 'g'] = (ops ++ [.tunClose t 's']) ++ [.tunClose t 'g'] by simp,
+    show ops ++ [Op.tunClose t 'g', .tunClose t 's'] = (ops ++ [.tunClose t 'g']) ++ [.tunClose t 's'] by simp,
+    run_snoc, run_snoc, run_snoc, run_snoc]
+  exact this
 
 /-- UDP: a multiplexer step adds to the session's protocol exactly the payload bytes the
 multiplexer model (`TT.UdpFlows`, C07) reports as sent / delivered -/
@@ -179,7 +198,10 @@ example :
     (after exCfg (ops.take 12)).cells = { s1 := 1, s2 := 1, tcp := 3, udp := 1, up1 := 9, up2 := 110, dn1 := 0, dn2 := 27 }
     ∧ (after exCfg (ops.take 13)).cells.tcp = 2
     ∧ (after exCfg ops).cells = { s1 := 0, s2 := 0, tcp := 2, udp := 0, up1 := 9, up2 := 110, dn1 := 0, dn2 := 27 }
-    ∧ (after exCfg (ops ++ [.adv 120000])).cells.tcp = 0 := by
+    ∧ (after exCfg (ops ++ [.adv 120000])).cells.tcp = 0
+    ∧ (after exCfg [.sessOpen .h2, .tunOpen 0 .origin, .tunClose 0 's', .up 0 5]).cells
+        = { s1 := 0, s2 := 1, tcp := 1, udp := 0, up1 := 0, up2 := 5, dn1 := 0, dn2 := 0 }
+    ∧ (after exCfg [.sessOpen .h2, .tunOpen 0 .origin, .tunClose 0 's', .up 0 5, .tunClose 0 'g']).cells.tcp = 0 := by
   decide
 
 end TT.Metrics
